@@ -22,6 +22,12 @@ def grids(rng):
         out.append(cls((r0, r0 + float(rng.choice([2e-8, 1.0, 3.0]))) if r0 else float(rng.uniform(0.5, 3)), int(rng.integers(1, 6))))
     r0 = float(rng.choice([0.0, 1e-8, 0.7]))
     out.append(CylindricalSymGrid((r0, r0 + 1.5) if r0 else 1.5, (float(rng.uniform(-2, 0)), float(rng.uniform(0.5, 2))), (int(rng.integers(1, 5)), int(rng.integers(1, 5))), periodic_z=bool(rng.integers(0, 2))))
+    # axial cell sizes that are not dyadic rationals (bounds must come back bit for bit, not only to round-off)
+    zb, nz = [((-2, 1), 9), ((-1, 2), 17), ((-1, 4), 18), ((-1.5, 0), 5), ((0.1, 0.7), 7)][int(rng.integers(0, 5))]
+    out.append(CylindricalSymGrid(2, zb, (2, nz)))
+    lo = float(rng.uniform(-3, 0))
+    out.append(CylindricalSymGrid(1.5, (lo, lo + float(rng.uniform(0.5, 4))), (2, int(rng.integers(5, 33)))))
+    out.append(CartesianGrid([(lo, lo + float(rng.uniform(0.5, 4)))], [int(rng.integers(5, 33))]))
     return out
 
 
@@ -36,7 +42,7 @@ def run(payload):
     fails, cases = [], 0
 
     def fail(kind, **kw):
-        if len(fails) < 8:
+        if sum(1 for f in fails if f["id"] == kind) < 3:  # a few witnesses per kind; one kind never crowds out another
             fails.append({"id": kind, **kw})
 
     for _ in range(payload.get("n", 3)):
@@ -57,7 +63,7 @@ def run(payload):
             for cls, rank in ((ScalarField, 0), (VectorField, 1), (Tensor2Field, 2)):
                 for dtype in (float, np.float32, complex, int):
                     data = (rng.uniform(-5, 5, (g.dim,) * rank + g.shape)).astype(dtype)
-                    f = cls(g, data, label=rng.choice(["a", "field 1", None]), dtype=dtype)
+                    f = cls(g, data, label=[None, "", "a", "field 1"][int(rng.integers(0, 4))], dtype=dtype)
                     try:
                         f2 = FieldBase.from_state(FieldBase.unserialize_attributes(f.attributes_serialized), data=f.data)
                     except Exception as e:
@@ -67,7 +73,8 @@ def run(payload):
                         fail("field_roundtrip", grid=repr(g), cls=cls.__name__, dtype=str(dtype))
             # collections
             for dtype in (float, np.float32, complex):
-                fc = FieldCollection([ScalarField(g, 1, label="s", dtype=dtype), VectorField(g, 2, label="v", dtype=dtype), Tensor2Field(g, 3, dtype=dtype)], label="coll", dtype=dtype)
+                fc = FieldCollection([ScalarField(g, 1, label="s", dtype=dtype), VectorField(g, 2, label="", dtype=dtype), Tensor2Field(g, 3, dtype=dtype)],
+                                     label=["coll", "", None][int(rng.integers(0, 3))], dtype=dtype)
                 fc.data[...] = rng.uniform(-1, 1, fc.data.shape)
                 try:
                     fc2 = FieldBase.from_state(FieldBase.unserialize_attributes(fc.attributes_serialized), data=fc.data)
